@@ -16,6 +16,13 @@ pub const FRESH_PROCESS_RUNS: u64 = 2;
 
 /// Child side of the fresh-process check: runs one generated run and prints its digest.
 pub fn run_digest<W: World>(w: &W, seed: u64, run: u64, tier: Tier) -> i32 {
+    super::set_tolerated_signatures(
+        load_known()
+            .into_iter()
+            .filter(|k| k.kind == "known" && k.property == w.property())
+            .map(|k| k.signature)
+            .collect(),
+    );
     let mut swarm = Rng::derive(seed, run, "swarm");
     let cfg = w.gen_cfg(&mut swarm, tier, run);
     let mut rng = Rng::derive(seed, run, "workload");
@@ -232,6 +239,14 @@ pub fn check<W: World>(w: &W, tier: Tier, seed: u64) -> i32 {
         .and_then(|s| s.parse().ok())
         .unwrap_or(n_runs);
     let deadline = start + Duration::from_secs(wall_cap);
+    // recorded known findings may be stepped over by the world, so that runs continue past them
+    super::set_tolerated_signatures(
+        load_known()
+            .into_iter()
+            .filter(|k| k.kind == "known" && k.property == w.property())
+            .map(|k| k.signature)
+            .collect(),
+    );
     println!(
         "verif-sim check property={} world={} tier={} VERIF_SEED={} runs<={} wall_cap_s={} workers={}",
         w.property(),
@@ -388,6 +403,16 @@ pub fn check<W: World>(w: &W, tier: Tier, seed: u64) -> i32 {
         Tier::Thorough => 300,
     });
     let mut replay_files = vec![];
+    // known findings the worlds stepped over (counted in the run statistics)
+    for k in known.iter().filter(|k| k.kind == "known" && k.property == w.property()) {
+        let hits = stats.counters.get(&format!("{}{}", super::KNOWN_COUNTER_PREFIX, k.signature)).copied().unwrap_or(0);
+        if hits > 0 {
+            n_known += hits;
+            if reported_known.insert(k.signature.clone()) {
+                println!("KNOWN-FINDING: property={} {} [signature={} observed={}]", w.property(), k.what, k.signature, hits);
+            }
+        }
+    }
     for f in found {
         let class = (f.violation.monitor.clone(), f.violation.signature.clone());
         if let Some(k) = known_match(&known, w.property(), &f.violation) {
@@ -533,6 +558,15 @@ pub fn replay<W: World>(w: &W, path: &Path) -> i32 {
             return EXIT_HARNESS;
         }
     };
+    // like check(): step over recorded known findings - except the one this file itself records
+    let own_signature = t.violation.as_ref().map(|v| v.signature.clone());
+    super::set_tolerated_signatures(
+        load_known()
+            .into_iter()
+            .filter(|k| k.kind == "known" && k.property == w.property() && Some(&k.signature) != own_signature.as_ref())
+            .map(|k| k.signature)
+            .collect(),
+    );
     let out = w.run(&t.cfg, Mode::Replay(&t.steps));
     match out.violation {
         Some(v) => {
